@@ -1,0 +1,18 @@
+//go:build verif
+
+package health
+
+import "time"
+
+// Hooks for the verification harness (build tag `verif`); not compiled otherwise.
+
+// VerifParams returns interval, timeout and maxFailedTimes as NewMonitor normalised them.
+func (monitor *Monitor) VerifParams() (time.Duration, time.Duration, int) {
+	return monitor.interval, monitor.timeout, monitor.maxFailedTimes
+}
+
+// VerifSetTiming overrides interval and timeout (the configuration only has whole seconds).
+// Call before Start.
+func (monitor *Monitor) VerifSetTiming(interval, timeout time.Duration) {
+	monitor.interval, monitor.timeout = interval, timeout
+}
